@@ -115,6 +115,9 @@ func c10run(r *rng.R, name, crypto string, mode ua.MessageSecurityMode) c10case 
 	}
 	// the adversary inserts verbatim copies of earlier chunks at arbitrary later positions
 	ncopy := r.Pick(0, 1, 1, 2, 3)
+	if seq < 1000 && len(c.History) > 0 && c.History[0].Seq > 4294960000 {
+		ncopy = 0 // the numbers rolled over: a copy from before the roll-over is, by the rule, a new number
+	}
 	for j := 0; j < ncopy; j++ {
 		src := r.Intn(len(c.History))
 		pos := r.Range(src+1, len(c.History))
